@@ -93,6 +93,7 @@ func container(stored int) []byte {
 }
 
 func installSSHModel() {
+	installOverrides()
 	// Appendix E.4, by computation on the fixed keys: the Curve25519 public key
 	// derived from the private key (X25519(SHA-512(seed)[:32], G)) is the
 	// Montgomery form of the Ed25519 public key. Evaluating it here also tells
@@ -102,6 +103,9 @@ func installSSHModel() {
 		mont, err := ed25519PublicKeyToCurve25519(pubOf(k))
 		V.Assert(err == nil && string(pub) == string(mont), "Ed25519 to Curve25519 conversions of a key pair disagree")
 	}
+}
+
+func installOverrides() {
 	V.Override("golang.org/x/crypto/ssh.NewSignerFromKey", fakeNewSignerFromKey)
 	V.Override("golang.org/x/crypto/ssh.ParseRawPrivateKeyWithPassphrase", fakeParse)
 }
@@ -207,4 +211,69 @@ func Harness_C19_sequence() {
 			}
 		}
 	}
+}
+
+// ---------------------------------------------------------------------------
+// C14: hostile stanzas handed to the SSH Ed25519 identity
+
+var printableNoSpace = func() (t [256]bool) {
+	for i := 33; i <= 126; i++ {
+		t[i] = true
+	}
+	return
+}()
+
+var b64Alphabet = func() (t [256]bool) {
+	for _, c := range "ABCDEFGHIJKLMNOPQRSTUVWXYZabcdefghijklmnopqrstuvwxyz0123456789+/" {
+		t[c] = true
+	}
+	return
+}()
+
+// Harness_C14_unwrap_ssh_ed25519: an Ed25519Identity on an arbitrary stanza of
+// its own type: 0..3 arguments, the first either its own tag or arbitrary, the
+// second of length 0, 1, 42, 43 or 44 over the base64 alphabet with one
+// arbitrary printable character, body of 0, 16, 31, 32 or 33 arbitrary bytes.
+// A value or an error comes back, never a panic, never both.
+func Harness_C14_unwrap_ssh_ed25519() {
+	installOverrides()
+	id, err := NewEd25519Identity(fixedKeys[0])
+	V.Assert(err == nil, "NewEd25519Identity failed")
+	if err != nil {
+		return
+	}
+	st := &age.Stanza{Type: "ssh-ed25519"}
+	nargs := V.Int("nargs", 0, 3)
+	for k := 0; k < nargs; k++ {
+		tag := string(rune('0' + k))
+		switch {
+		case k == 0 && V.Bool("owntag"):
+			st.Args = append(st.Args, sshFingerprint(id.sshKey))
+		case k == 1:
+			n := []int{0, 1, 42, 43, 44}[V.Int("alen", 0, 4)]
+			a := V.Bytes("arg1", n)
+			wild := -1
+			if n > 0 {
+				wild = []int{0, n / 2, n - 1}[V.Int("wild", 0, 2)]
+			}
+			for j, c := range a {
+				if j == wild {
+					V.Assume(printableNoSpace[c])
+				} else {
+					V.Assume(b64Alphabet[c])
+				}
+			}
+			st.Args = append(st.Args, string(a))
+		default:
+			a := V.Bytes("arg"+tag, V.Int("alen"+tag, 0, 6))
+			for _, c := range a {
+				V.Assume(printableNoSpace[c])
+			}
+			st.Args = append(st.Args, string(a))
+		}
+	}
+	st.Body = V.Bytes("body", []int{0, 16, 31, 32, 33}[V.Int("blen", 0, 4)])
+	fk, uerr := id.Unwrap([]*age.Stanza{st})
+	V.Reach("returned")
+	V.Assert((fk == nil) != (uerr == nil), "Unwrap returned both or neither of a file key and an error")
 }
